@@ -155,3 +155,28 @@ def mutable_defaults(ctx, rep: Report, rule: str, module_prefixes=None):
     rep.oblige(rule, f"{n} parameter defaults inspected", True)
     if n < 20:
         raise AnalysisError(f"{rule}: only {n} parameter defaults found (floor 20)")
+
+
+def borrow(ctx, rep: Report, module_name: str, rules_map: dict):
+    """Run another property's rule module and take over the verdicts of the rules named in rules_map
+    ({their rule id: our rule id}): a property whose statement rests on a mechanism that is decided elsewhere
+    re-states that obligation under its own id instead of silently assuming it."""
+    import importlib
+    mod = importlib.import_module(f"sa.rules.{module_name}")
+    sub = Report(rep.pid, rep.tier)
+    (getattr(mod, "_check_main", None) or mod.check)(ctx, sub)
+    rep.functions |= sub.functions
+    rep.evaluations += sub.evaluations
+    n = 0
+    for o in sub.obligations:
+        if o["rule"] in rules_map:
+            n += 1
+            rep.oblige(rules_map[o["rule"]], o["instance"], o["ok"], o["detail"])
+    for theirs, ours in rules_map.items():
+        rep.rules[ours] = f"{sub.rules.get(theirs, theirs)} (decided by the rules of {theirs})"
+    for v in sub.violations:
+        if v.rule in rules_map:
+            ours = rules_map[v.rule]
+            rep.violate(Violation(ours, ours + v.key[len(v.rule):] if v.key.startswith(v.rule) else f"{ours}|{v.key}", v.what, v.site, v.function, v.path, v.entry))
+    if n == 0:
+        raise AnalysisError(f"borrow: module {module_name} produced no obligation for {sorted(rules_map)}")
